@@ -55,6 +55,7 @@ def run_variant(prop: str, edits, repo_root: str = "/repo", timeout: int = 120):
                  if " VIOLATION " in l or l.startswith(("ANALYSIS-ERROR", "KNOWN-FINDING"))
                  or " UNRESOLVED " in l]
         return {"status": "ran", "exit": r.returncode, "lines": lines[:8],
+                "rules_fired": sorted({l.split()[1] for l in lines if ": VIOLATION --" in l and len(l.split()) > 1}),
                 "stderr": r.stderr[-300:] if r.returncode not in (0, 1, 2) else ""}
     finally:
         shutil.rmtree(tmp, ignore_errors=True)
@@ -67,7 +68,8 @@ def run_corpus(prop: str, variants: list[dict], jobs: int = 16, repo_root: str =
         ok = None
         if res["status"] == "ran":
             if v["expect"] == "fire":
-                ok = res["exit"] == 1 and (not v.get("rule") or any(v["rule"] in l for l in res["lines"]))
+                ok = res["exit"] == 1 and (not v.get("rule") or v["rule"] in res.get("rules_fired", [])
+                                           or any(v["rule"] in l for l in res["lines"]))
             else:
                 ok = res["exit"] == 0
         return {"name": v["name"], "expect": v["expect"], "rule": v.get("rule"), **res, "ok": ok}
